@@ -1,6 +1,6 @@
 //@ tu: libxcm/tp/tls/ctx_store.c libxcm/tp/tls/item.c
 //@ nondfcc: 1
-//@ unwindset: harness.0:5 harness.1:97 strlen.0:5
+//@ unwindset: harness.0:5 harness.1:129 strlen.0:5
 //@ props: C18
 //@ bounded: two designations of the four items, each item unset or given BY VALUE with a value of 0..3 arbitrary non-NUL bytes (by-file items feed 43+ bytes each and are outside the bound of the ghost digest-input log; their format is the subject of locks.do_hash_file); SHA-256 itself is not modelled: the property is about its INPUT
 //@ expect: assertion>=2 canary=2
